@@ -80,6 +80,10 @@ def tasks(tier):
     for fname, kw in (("run_threefield", dict(blocks="grad+FF")), ("run_neohooke", dict(cfg="mu+bulk")), ("run_ogden", dict(case="unloading"))):
         ts.append(("material evaluation history %s" % fname, "run_included", dict(modname="c03", fname=fname, kwargs=kw, oid="C01.O1h", select_oid="C03.O1h",
                                                                                 why="the assembled matrix is the derivative of the assembled vector only if both evaluate the material as a function of the current state alone")))
+    # a body evaluates its material for all quadrature points of all cells in one call: the tangent of every point has to belong to that point's
+    # own stress branch (an increment in which only some points yield)
+    ts.append(("point-wise branches in one material call", "run_included", dict(modname="c03", fname="run_plastic", kwargs=dict(case="mixed"), oid="C01.O1p", select_oid="C03.O7",
+                                                                             why="the assembled matrix is the derivative of the assembled vector only if, point by point, the returned tangent is the derivative of the returned stress -- also when the points of one call are on different branches")))
     for cfg in ("NeoHooke(bulk)", "NeoHooke(mu,bulk)", "Volumetric", "NeoHookeCompressible"):
         ts.append(("re-assembly %s" % cfg, "run_reassembly", dict(cfg=cfg)))
     # the mixed-field matrix is assembled from the list of hessian blocks: block placement (upper-triangle list mirrored, full list row-major
